@@ -163,7 +163,8 @@ Unstake      == \E u \in Users, a \in UnstakeAmts : Bal(w.bank, u, LstD) >= a /\
 Submit       == \E u \in Principals : Do(SubmitCall(u))
 \* (also for a batch id that does not exist)
 Withdraw_    == \E u \in Users, b \in BatchIds(w.c) \cup {Len(w.c.batches) + 1} : Do(WithdrawCall(u, b))
-Rewards      == \E a \in RewardAmts : Do(RewardsCall(a, Collector))
+\* (the chain may refuse the restaking transfer of a reward at submission: the whole delivery is then rolled back)
+Rewards      == \E a \in RewardAmts, f \in FailSeqs : Do(RewardsCall(a, Collector) @@ [ibc_fail |-> f])
 ReturnBatch  == \E b \in Outstanding(w), k \in Returns :
                   LET e == w.c.batches[b].expected
                       a == CASE k = "exact" -> e [] k = "short" -> e - 1 [] k = "long" -> e + 1 [] k = "one" -> 1
@@ -241,8 +242,9 @@ Unoracle     == "unoracle" \in Extras /\ w.c.cfg.oracle # "" /\
                       up |-> [proto |-> [channel |-> w.c.cfg.channel, minStake |-> w.c.cfg.minStake, oracle |-> "", valid |-> TRUE]]])
 TopUp        == "long" \in Returns /\ Get(w.nat.bal, Staker) < MaxN /\ Do(NatFundCall(Staker, 1))
 Relay        == \E p \in w.ibc.fly, o \in Outcomes : Do(AckCall(p.seq, o))
-Recover_     == \E u \in Principals, rcv \in {""} \cup {NatOf(x) : x \in Users}, f \in FailSeqs :
-                  (\E p \in w.c.pk : Refundable(p)) /\ Do(RecoverCall(u, rcv, f))
+\* (plain and paginated: a page takes the first ten REFUNDABLE transfers of that receiver, never anything else)
+Recover_     == \E u \in Principals, rcv \in {""} \cup {NatOf(x) : x \in Users}, f \in FailSeqs, pg \in {"none", "true"} :
+                  (\E p \in w.c.pk : Refundable(p)) /\ Do([RecoverCall(u, rcv, f) EXCEPT !.paginated = pg])
 \* admin-selected recovery: one packet, the same packet listed twice (counts once), and two packets
 \* (and an EMPTY selection, with and without tracked packets: refused, never an index into nothing)
 \* ("forceinflight": the admin also re-sends packets that are still in flight - the history stops being honest, but
